@@ -267,7 +267,26 @@ func (in inst[T]) read(m *common.MultiAsset[T]) refVal {
 // quantities, every slot's quantity); used by the operand-purity oracle.
 type snap struct {
 	policies, listed int
-	q                [nSlots]string
+	q                [nSlots]string // big-endian magnitude with a sign byte; "-" = nil
+}
+
+func (s snap) String() string {
+	out := fmt.Sprintf("{policies:%d listed:%d q:[", s.policies, s.listed)
+	for i, q := range s.q {
+		if i > 0 {
+			out += " "
+		}
+		if q == "-" {
+			out += "-"
+			continue
+		}
+		v := new(big.Int).SetBytes([]byte(q[1:]))
+		if q[0] == 0 {
+			v.Neg(v)
+		}
+		out += v.String()
+	}
+	return out + "]}"
 }
 
 func (in inst[T]) snapshot(m *common.MultiAsset[T]) snap {
@@ -284,7 +303,8 @@ func (in inst[T]) snapshot(m *common.MultiAsset[T]) snap {
 			s.q[i] = "-"
 			continue
 		}
-		s.q[i] = in.big(q).String()
+		b := in.big(q)
+		s.q[i] = string(append([]byte{byte(b.Sign() + 1)}, b.Bytes()...))
 	}
 	return s
 }
@@ -307,7 +327,7 @@ func (in inst[T]) pure(ord int64, after string, rep map[string]any, ops ...opera
 	for _, o := range ops {
 		if now := in.snapshot(o.m); now != o.was {
 			ok = false
-			violation(ord, in.name+"|operand-modified|"+after, fmt.Sprintf("operand %s was %+v before and is %+v after %s", o.name, o.was, now, after), rep)
+			violation(ord, in.name+"|operand-modified|"+after, fmt.Sprintf("operand %s was %s before and is %s after %s", o.name, o.was, now, after), rep)
 		}
 	}
 	return ok
@@ -397,7 +417,7 @@ func (in inst[T]) unary(ord int64, s spec) {
 		}
 	}
 	if now, was := in.snapshot(a), in.snapshot(in.build(s, nil)); now != was {
-		violation(ord, k+"operand-modified|Encode/Compare", fmt.Sprintf("%s: value is %+v after Compare and Encode, a fresh copy is %+v", s, now, was), in.rep("unary", s))
+		violation(ord, k+"operand-modified|Encode/Compare", fmt.Sprintf("%s: value is %s after Compare and Encode, a fresh copy is %s", s, now, was), in.rep("unary", s))
 	}
 	// decode
 	var d common.MultiAsset[T]
@@ -454,20 +474,17 @@ func (in inst[T]) pair(ord int64, sa, sb spec) {
 	}
 	rp := in.rep("pair", sa, sb)
 	oa, ob := operand[T]{"a", a, in.snapshot(a)}, operand[T]{"b", b, in.snapshot(b)}
-	in.pure(ord, "Compare", rp, oa, ob)
 	// a+b, b+a on fresh receivers, the operands are the same objects a and b
 	s1, s2 := in.build(sa, nil), in.build(sb, nil)
 	s1.Add(b)
-	in.pure(ord, "Add(operand)", rp, oa, ob)
 	s2.Add(a)
-	in.pure(ord, "Add(operand)", rp, oa, ob)
+	in.pure(ord, "Compare+Add(operand)", rp, oa, ob)
 	sum := in.refAdd(ra, rb)
 	// the same objects accumulated into an empty value, in both orders, one after the other
 	for _, order := range [2][2]operand[T]{{oa, ob}, {ob, oa}} {
 		acc := in.build(spec{-1, -1, -1, -1}, nil)
 		for step, o := range order {
 			acc.Add(o.m)
-			in.pure(ord, "accumulate-from-empty", rp, oa, ob)
 			if step == 1 {
 				if g := in.read(acc); !refEq(g, sum) {
 					violation(ord, k+"Add|reused-operands≠per-asset-sum", fmt.Sprintf("a=%s b=%s: {}+%s+%s computed from reused operand objects holds %s, per-asset sum is %s", ra0(in, sa), ra0(in, sb), order[0].name, order[1].name, g, sum), rp)
@@ -475,6 +492,7 @@ func (in inst[T]) pair(ord int64, sa, sb spec) {
 			}
 		}
 	}
+	in.pure(ord, "accumulate-from-empty", rp, oa, ob)
 	if g := in.read(s1); !refEq(g, sum) {
 		violation(ord, k+"Add|≠per-asset-sum", fmt.Sprintf("a=%s b=%s: a.Add(b) holds %s, per-asset sum is %s", ra0(in, sa), ra0(in, sb), g, sum), in.rep("pair", sa, sb))
 	}
@@ -526,7 +544,10 @@ func (in inst[T]) triple(ord int64, sa, sb, sc spec) {
 	if want := in.refAdd(in.refAdd(ra, rb), rc); !refEq(in.read(l), want) {
 		violation(ord, k+"Add|≠per-asset-sum", fmt.Sprintf("a=%s b=%s c=%s: (a+b)+c holds %s, per-asset sum is %s", ra0(in, sa), ra0(in, sb), ra0(in, sc), in.read(l), want), in.rep("triple", sa, sb, sc))
 	}
-	in.histories(ord, sa, sb, sc)
+	if histOK(sa) && histOK(sb) && histOK(sc) {
+		in.histories(ord, sa, sb, sc)
+		c.Outcome("histories-run")
+	}
 	o := "triple:premise-false"
 	if premise {
 		o = "triple:premise-true"
@@ -668,7 +689,25 @@ func readInt(n *space.Node) (*big.Int, bool) {
 
 // run: values with <= maxEntries entries; pairs (a, b) with a any value and b any value
 // with <= pairEntries entries (specs are sorted by entry count, so that is a prefix).
-func run[T num](in inst[T], maxEntries, pairEntries int, tripleSpecs func(all []spec) []spec) {
+// histOK selects the triples on which the (expensive) reuse histories run: always in quick
+// (12-value sub-universe); in thorough the 41 values with <=2 entries over {0,1} or exactly
+// one entry (any of the 4 kept quantities).
+var histOK = func(spec) bool { return true }
+
+func run[T num](in inst[T], maxEntries, pairEntries int, zero, one int8, tripleSpecs func(all []spec) []spec) {
+	if c.Thorough() {
+		histOK = func(s spec) bool {
+			if entries(s) <= 1 {
+				return true
+			}
+			for _, v := range s {
+				if v >= 0 && v != zero && v != one {
+					return false
+				}
+			}
+			return true
+		}
+	}
 	specs := allSpecs(len(in.alpha), maxEntries)
 	n := len(specs)
 	nb := 0
@@ -817,19 +856,21 @@ func main() {
 	// big: zero=2 one=3 neg=1(-1) bigq=6(2^64); int64: zero=3 one=4 neg=2(-1) bigq=0(-2^63);
 	// uint64: zero=0 one=1 neg=6(2^64-1 = -1 mod 2^64) bigq=4(2^63)
 	// quick: *big.Int all 1 695 values, pairs a x (b with <=2 entries); int64/uint64 values and pairs with <=2 entries.
-	// thorough: all 1 695 values and all 1 695^2 ordered pairs for each instantiation.
+	// thorough: all 1 695 values for each instantiation; all 1 695^2 ordered pairs for *big.Int, 1 695 x 323 for int64/uint64.
 	if c.Thorough() {
-		run(bigI, 3, 3, sub(2, 3, 1, 6))
-		run(i64, 3, 3, sub(3, 4, 2, 0))
-		run(u64, 3, 3, sub(0, 1, 6, 4))
+		run(bigI, 3, 3, 2, 3, sub(2, 3, 1, 6))
+		run(i64, 3, 2, 3, 4, sub(3, 4, 2, 0))
+		run(u64, 3, 2, 0, 1, sub(0, 1, 6, 4))
 	} else {
-		run(bigI, 3, 2, sub(2, 3, 1, 6))
-		run(i64, 2, 2, sub(3, 4, 2, 0))
-		run(u64, 2, 2, sub(0, 1, 6, 4))
+		run(bigI, 3, 2, 2, 3, sub(2, 3, 1, 6))
+		run(i64, 2, 2, 3, 4, sub(3, 4, 2, 0))
+		run(u64, 2, 2, 0, 1, sub(0, 1, 6, 4))
 	}
 	flush()
 
 	c.Set("rule", "per instantiation (*big.Int, int64, uint64): every partial map over 2 policies x 2 names with <=3 entries (quick: <=2 for int64/uint64, and the second operand of a pair has <=2 entries) and quantities from the 7-value alphabet; every value (reflexivity, encode key order/content by own CBOR reader, identical bytes for all 24 insertion orders x2, decode->Compare both ways, no zero left, self-add); every ordered pair (Compare symmetric and = per-asset equality of non-zero quantities; a+b, b+a = per-asset sums, Compare-equal, equal to the value built from the sums); every ordered triple of the sub-universe (transitivity, associativity, per-asset sum; histories that reuse the same operand objects: all 6 accumulation orders from an empty, an equal-to-a and a full accumulator, (a+b)+c, a+(b+c), c+b+a). Operand purity: after every Compare/Encode/Add every operand object must equal the dump taken when it was built. distinct = (instantiation, value) for the unary checks and (instantiation, sign pattern of a, sign pattern of b) with pattern = absent/zero/negative/positive per slot for pairs; triples are not counted as distinct classes")
 	c.Assume("math/big is trusted for the reference arithmetic; int64/uint64 reference = arithmetic modulo 2^64 (Go's native semantics)")
+	// free-running -race pass: concurrent callers on their own inputs (state the library shares between calls)
+	c.RaceAudit("c06")
 	c.Finish()
 }
